@@ -750,7 +750,37 @@ impl<'a> Session<'a> {
         });
     }
 
+    /// A Plutus script can only see signatories listed in the body's required signers, so a
+    /// history that declares signers on a Plutus script source also lists them there.
+    fn couple_plutus_signers(&mut self, op: &Op, r: &Res) {
+        if !r.is_ok() {
+            return;
+        }
+        let wit = match op {
+            Op::InScript { wit, .. } => Some(wit),
+            Op::Cert(_, Some(w)) | Op::Wdr(_, _, Some(w)) | Op::Propose(_, Some(w)) => Some(w),
+            Op::Mint { wit, .. } => Some(wit),
+            Op::Vote { wit: Some(w), .. } => Some(w),
+            _ => None,
+        };
+        if let Some(w) = wit {
+            if (w.script as usize) < self.w.scripts.len() && self.is_plutus(w) {
+                if let Some(ks) = &w.signers {
+                    for k in ks {
+                        self.tx.add_required_signer(&key(*k).hash);
+                    }
+                }
+            }
+        }
+    }
+
     pub fn apply(&mut self, idx: usize, op: &Op, sim: &Sim) -> Res {
+        let r = self.apply_inner(idx, op, sim);
+        self.couple_plutus_signers(op, &r);
+        r
+    }
+
+    fn apply_inner(&mut self, idx: usize, op: &Op, sim: &Sim) -> Res {
         macro_rules! need {
             ($c:expr) => {
                 if !($c) {
@@ -779,6 +809,10 @@ impl<'a> Session<'a> {
             Op::InLegacy(u) => {
                 need!(self.utxo_ok(*u));
                 let ut = &self.w.utxos[*u];
+                if ut.script_ref.is_some() {
+                    // the older entry points cannot be told about a reference script on the UTxO
+                    return Res::Skipped("legacy input entry point cannot declare a reference script");
+                }
                 let input = self.w.input_of(ut);
                 let val = self.w.value(ut.coin, &ut.assets);
                 match &ut.addr {
@@ -844,6 +878,9 @@ impl<'a> Session<'a> {
             Op::InDirect(u) => {
                 need!(self.utxo_ok(*u));
                 let ut = &self.w.utxos[*u];
+                if ut.script_ref.is_some() {
+                    return Res::Skipped("legacy input entry point cannot declare a reference script");
+                }
                 let input = self.w.input_of(ut);
                 let val = self.w.value(ut.coin, &ut.assets);
                 let addr = self.w.address(&ut.addr);
